@@ -1024,8 +1024,15 @@ def tails_fact(chk, fi, sem: Sem, roles, cands: Optional[str]) -> None:
                     neg = isinstance(t.ops[0], ast.NotIn) == p
                     lv = sem.ev(t.left, at)
                     la = atom_of(lv) if isinstance(lv, Aff) else lv
-                    if neg and la == a and isinstance(t.comparators[0], ast.Name) and _receives_loops(sem, t.comparators[0].id):
-                        used_ok = True
+                    if neg and isinstance(t.comparators[0], ast.Name) and _receives_loops(sem, t.comparators[0].id):
+                        sem.leftover_set = t.comparators[0].id
+                        if la == a:
+                            used_ok = True
+                            sem.leftover_domain = "strand"
+                        elif isinstance(a, tuple) and a and a[0] == "item" and isinstance(lv, Aff) and a[1] == lv:
+                            # the candidate's own number is looked up: `for i, c in enumerate(cands): if i not in used`
+                            used_ok = True
+                            sem.leftover_domain = "index"
             others = [1 for t, p in guards if not (isinstance(t, ast.Compare) and isinstance(t.ops[0], (ast.NotIn, ast.In)))]
             if is_elem and used_ok and not others:
                 chk.ok(rule, fi.site(c), "every loop-strand candidate that is in no recorded loop is reported as SingleStrand(candidate, False, False)")
@@ -1399,11 +1406,63 @@ def closure_fact(chk, fi, sem: Sem, roles, cands: Optional[str]) -> None:
     # its strands are marked used (so that they are not reported again as single strands)
     st = sem.stmt_of(c)
     blk = _block_of(sem, st)
-    marks = [n for s in blk for n in ast.walk(s) if isinstance(n, ast.Call) and isinstance(n.func, ast.Attribute) and n.func.attr == "update" and n.args and isinstance(n.args[0], ast.Name) and n.args[0].id == inner.id]
+    recv = getattr(sem, "leftover_set", None)
+    marks = _marks(blk, inner.id, recv)
+    domain = "strand"
+    if not marks:
+        # the walk may be kept as candidate numbers, the strands being their image: walk = [cands[i] for i in numbers]
+        numbers = _index_image(sem, inner.id, cands)
+        if numbers is not None:
+            marks = _marks(blk, numbers, recv)
+            domain = "index"
+    want = getattr(sem, "leftover_domain", None)
+    if marks and want is not None and want != domain:
+        chk.violation(rule, fi.site(c), f"the strands of a recorded loop are marked as used by their {'numbers' if domain == 'index' else 'values'}, the leftover test looks up their {'numbers' if want == 'index' else 'values'}: they are reported again as single strands", K(fi, "closure-used"))
+        return
     if not marks:
         chk.violation(rule, fi.site(c), "the strands of a recorded loop are not marked as used: they are reported again as single strands", K(fi, "closure-used"))
         return
     chk.ok(rule, fi.site(c), "Loop(walk) in walk order iff entries[walk[0].first - 1].pair == walk[-1].last and some strand has last - first > 1; its strands are marked used")
+
+
+def _marks(blk: Sequence[ast.stmt], name: str, recv: Optional[str] = None) -> List[ast.AST]:
+    """Statements that put every element of the list `name` into a set: S.update(name), S.update(set(name)), S |= set(name),
+    S = S | set(name), for x in name: S.add(x)."""
+
+    def is_coll(e: ast.AST) -> bool:
+        while isinstance(e, ast.Call) and isinstance(e.func, ast.Name) and e.func.id in ("set", "frozenset", "list", "tuple") and len(e.args) == 1 and not e.keywords:
+            e = e.args[0]
+        return isinstance(e, ast.Name) and e.id == name
+
+    def is_recv(e: ast.AST) -> bool:
+        return recv is None or isinstance(e, ast.Name) and e.id == recv
+
+    out: List[ast.AST] = []
+    for st in blk:
+        for n in ast.walk(st):
+            if isinstance(n, ast.Call) and isinstance(n.func, ast.Attribute) and n.func.attr == "update" and len(n.args) == 1 and is_coll(n.args[0]) and is_recv(n.func.value):
+                out.append(n)
+            elif isinstance(n, ast.AugAssign) and isinstance(n.op, ast.BitOr) and is_coll(n.value) and is_recv(n.target):
+                out.append(n)
+            elif isinstance(n, ast.Assign) and isinstance(n.value, ast.BinOp) and isinstance(n.value.op, ast.BitOr) and len(n.targets) == 1 and isinstance(n.targets[0], ast.Name) and any(isinstance(x, ast.Name) and x.id == n.targets[0].id for x in (n.value.left, n.value.right)) and any(is_coll(x) for x in (n.value.left, n.value.right)) and is_recv(n.targets[0]):
+                out.append(n)
+            elif isinstance(n, ast.For) and isinstance(n.target, ast.Name) and is_coll(n.iter) and len(n.body) == 1 and isinstance(n.body[0], ast.Expr) and isinstance(n.body[0].value, ast.Call) and isinstance(n.body[0].value.func, ast.Attribute) and n.body[0].value.func.attr == "add" and len(n.body[0].value.args) == 1 and isinstance(n.body[0].value.args[0], ast.Name) and n.body[0].value.args[0].id == n.target.id and is_recv(n.body[0].value.func.value):
+                out.append(n)
+    return out
+
+
+def _index_image(sem: Sem, name: str, cands: Optional[str]) -> Optional[str]:
+    """`name` is bound once to [cands[t] for t in NUMBERS]: NUMBERS."""
+    d = astq.single_def(sem.fn, name)
+    if not (isinstance(d, ast.ListComp) and len(d.generators) == 1 and not d.generators[0].ifs):
+        return None
+    g = d.generators[0]
+    e = d.elt
+    if not (isinstance(g.target, ast.Name) and isinstance(g.iter, ast.Name) and isinstance(e, ast.Subscript) and isinstance(e.value, ast.Name) and isinstance(e.slice, ast.Name) and e.slice.id == g.target.id):
+        return None
+    if cands is not None and e.value.id != cands:
+        return None
+    return g.iter.id
 
 
 # -- walk --------------------------------------------------------------------------------------------------------------
